@@ -77,6 +77,10 @@ def cases(tier, seed):
                 nsh = 1 if (n == 2 and b <= 2) else 16
                 for sh in range(nsh):
                     out.append({'k': 'conc', 'n': n, 'fc': fc, 'fp': fp, 'bound': b, 'shard': [sh, nsh]})
+    # hits whose timestamps are far apart (0, 1.5 and 1.6 periods), taken by threads that overtake one another between taking the
+    # timestamp and reserving the fire: no two collections may be closer than the period, whatever the order
+    for sh in range(4):
+        out.append({'k': 'conc', 'n': 3, 'fc': '-1', 'fp': '1000', 'bound': 1 if tier == 'quick' else 2, 'shard': [sh, 4], 'spread': [0, 1500, 1600]})
     return out
 
 
@@ -401,6 +405,10 @@ def case_conc(ctx, desc):
 
         def time_ns():
             clock['now'] += 1
+            if desc.get('spread'):
+                me = sched.current()
+                idx = int(me.name.split('-')[1]) if me is not None and me.name.startswith('hitter-') else 0
+                return T0 + desc['spread'][idx] * MS + clock['now'] % 1000
             return clock['now']
         st = {'agent': agent, 'clock': clock, 'time_ns': time_ns}
         first = None
@@ -429,6 +437,18 @@ def case_conc(ctx, desc):
                 ctx.violation('C04/hit-raised/' + type(t.exc).__name__, f'{t.name} raised {t.exc!r}', case)
                 return
         got = len(agent.snapshots)
+        if desc.get('spread'):
+            ts = sorted(s.ts_nanos for s in agent.snapshots)
+            close = [(b - a) / MS for a, b in zip(ts, ts[1:]) if b - a < fp * MS]
+            ctx.outcome(('spread', got))
+            if sched.preemptions() > 0:
+                ctx.nt(tuple(choices))
+            if close:
+                ctx.violation('C04/concurrent-over-fire/period/spread-timestamps', f'3 threads hit at {desc["spread"]} ms, fire_period={fp}ms, unlimited count: '
+                              f'collections at offsets {[round((t - T0) / MS, 3) for t in ts]} ms - two of them {close} ms apart', case)
+            elif got < 1:
+                ctx.violation('C04/concurrent-under-fire/spread', 'no collection at all', case)
+            return
         want = min(n, fc) if fp == 0 else 1
         ctx.outcome(got)
         if sched.preemptions() > 0:
